@@ -44,7 +44,12 @@ LEVEL_NOTE = ("C10_aligned assumes that propagate delays its input grid by the p
               "harness only (mutation and shares_memory probes after every event; C10_fresh_objects is the allocation-level "
               "statement behind them). Shipped Askaryan models are expected to raise ValueError only for |angle| > 180 "
               "degrees (their documented check); any other ValueError that the kernel would turn into an empty signal is "
-              "reported. No _partial theorem.")
+              "reported. Zero antennas, events without particles and views exactly ON the off-cone limit (the model is "
+              "handed the float |psi-theta_c| the code computes) are inside the model and generated. weight_min forms "
+              "outside scalar | pair of numbers (numpy-array pair, 1-tuple, string, pair of None) and an exhausted "
+              "ListGenerator(loop=False) make event() raise (ValueError / IndexError / TypeError / StopIteration) - "
+              "checked on every run; a 3-tuple is read as its first two entries. The only skip counter is "
+              "real_skipped_known_K11 (BasicRayTracer NaN in brentq, known finding). No _partial theorem.")
 CHECKER_MODULES = ["PyrexVerif.Proofs.Kernel", "PyrexVerif.Gen.Interfaces", "PyrexVerif.D.Kernel"]
 EXTRACTORS = ["interfaces"]
 ASSUMPTIONS = ["the signature reader (harness/extract/interfaces.py) reflects Python's argument binding "
@@ -177,13 +182,15 @@ def make_stubs(ctx, log):
 
 
 def trig_fn(spec):
+    if spec[0] == "K":
+        return lambda ants: bool(spec[1])
     if spec[0] == "G":
         return lambda ants: len(list(ants)[spec[1]].calls) >= spec[2]
     return lambda ants: any(isinstance(c[0], list) for c in list(ants)[spec[1]].calls)
 
 
 def trig_s(spec):
-    return "%s %d %d" % spec if spec[0] == "G" else "%s %d" % spec
+    return "%s %d %d" % tuple(spec) if spec[0] == "G" else "%s %d" % tuple(spec)
 
 
 def build_event(evd):
@@ -253,8 +260,11 @@ def run_stub(case):
             return iter(self._items)
     form = case.get("ants_form", "list")
     ants_arg = tuple(ants) if form == "tuple" else OnlyIter(ants) if form == "iter" else ants
-    wmin_arg = list(case["wmin"]) if case.get("wmin_form") == "list" and isinstance(case["wmin"], tuple) \
-        else case["wmin"]
+    wmin_arg = case["wmin"]
+    if isinstance(wmin_arg, tuple) and case.get("wmin_form") == "list":
+        wmin_arg = list(wmin_arg)
+    elif isinstance(wmin_arg, tuple) and case.get("wmin_form") == "tuple3":
+        wmin_arg = wmin_arg + (0.9,)                   # only the first two entries are looked at
     writer = Writer() if case["writer"] else None
     t = case["trig"]
     if t[0] == "N":
@@ -306,9 +316,10 @@ def run_stub(case):
         for pid in order:
             p = ps[pid]
             vid = vid_of(evd, pid)
-            theta_c = float(np.arccos(1 / stub_index(p.vertex[2])))
-            s = "%d %s %s %s %s" % (pid, opt(p.survival_weight), opt(p.interaction_weight), opt(p._forced_weight),
-                                    frs(theta_c))
+            theta_c = np.arccos(1 / ice.index(p.vertex[2]))
+            # the model is handed |psi - theta_c| as the float the code computes (angle 0 for the cone), so that
+            # its exact comparison with offcone_max is the code's float comparison - also exactly on the boundary
+            s = "%d %s %s %s 0" % (pid, opt(p.survival_weight), opt(p.interaction_weight), opt(p._forced_weight))
             for i in range(case["nant"]):
                 sols = paths[(vid, i)]
                 if sols is None:
@@ -316,11 +327,9 @@ def run_stub(case):
                 else:
                     s += " S %d" % len(sols)
                     for path in sols:
-                        psi = float(np.arccos(np.vdot(p.direction, path.emitted_direction)))
-                        psi_of[(pid, path.id)] = psi
-                        if abs(abs(psi - theta_c) - offmax) < 1e-9:
-                            raise AssertionError("generated viewing angle sits on the off-cone boundary")
-                        s += " %d %s %s %d" % (path.id, frs(path.tof), frs(psi),
+                        psi = np.arccos(np.vdot(p.direction, path.emitted_direction))
+                        psi_of[(pid, path.id)] = float(psi)
+                        s += " %d %s %s %d" % (path.id, frs(path.tof), frs(float(np.abs(psi - theta_c))),
                                                0 if (pid, path.id) in ctx["refuse"] else 1)
             parts.append(s)
         req = "ev %d %s %s %s %s %d %d %d %d %d %s" % (
@@ -453,7 +462,7 @@ def model_view(reply, has_writer):
 # ---------------------------------------------------------------------------------------------
 def gen_stub_event(rng, nant, theta_c):
     np = _np()
-    npart = rng.randint(1, 4)
+    npart = rng.randint(1, 4) if rng.random() > 0.06 else 0       # also an event without any particle
     # None, exact zeros of every flavour (0.0, -0.0, numpy scalar, int), values equal to the cuts (1/4, 1/2)
     wpool = [None, None, 0.0, -0.0, np.float64(0.0), 0, 1 / 16, 1 / 4, 1 / 2, np.float64(0.5), 1.0, 1]
     nvid = rng.randint(1, max(1, npart - 1))          # fewer vertices than particles: shared vertices
@@ -467,7 +476,7 @@ def gen_stub_event(rng, nant, theta_c):
         particles.append({"id": k + 1, "vid": rng.randint(1, nvid), "sw": rng.choice(wpool), "iw": rng.choice(wpool),
                           "forced": rng.choice([None, None, None, None, 0.0, 1 / 8, 1 / 4, 1.0]), "dir": d, "base": b,
                           "parent": None if k == 0 or rng.random() < 0.6 else rng.randint(1, k), "dup_of": None})
-    if rng.random() < 0.3:                             # the same Particle object once more, as a root
+    if particles and rng.random() < 0.3:               # the same Particle object once more, as a root
         src = rng.choice(particles)
         particles.append(dict(src, parent=None, dup_of=src["id"]))
     table = {}
@@ -506,7 +515,7 @@ def gen_stub_event(rng, nant, theta_c):
 
 def gen_stub_case(rng):
     np = _np()
-    nant = rng.randint(1, 3)
+    nant = rng.randint(1, 3) if rng.random() > 0.06 else 0         # also a kernel without any antenna
     theta_c = float(np.arccos(1 / 1.5))
     events = [gen_stub_event(rng, nant, theta_c)]
     for _ in range(rng.choice([0, 1, 1, 2])):          # the kernel object is reused for further events
@@ -515,7 +524,8 @@ def gen_stub_case(rng):
         else:
             events.append(gen_stub_event(rng, nant, theta_c))
     tk = rng.choice(["N", "F", "D", "D"])
-    spec = lambda: rng.choice([("G", rng.randrange(nant), rng.randint(0, 3)), ("U", rng.randrange(nant))])
+    spec = lambda: (("K", int(rng.random() < 0.5)) if nant == 0 or rng.random() < 0.1 else
+                    rng.choice([("G", rng.randrange(nant), rng.randint(0, 3)), ("U", rng.randrange(nant))]))
     if tk == "N":
         trig = ("N",)
     elif tk == "F":
@@ -526,13 +536,39 @@ def gen_stub_case(rng):
         trig = ("D", [(k, spec()) for k in keys])
     n = rng.randint(2, 5)
     t0 = rng.randint(-8, 8) / 4.0
+    offcone = rng.choice([None, 5, 20])
+    if rng.random() < 0.2:
+        offcone = boundary_offcone(rng, events[0], nant, offcone)     # a view exactly ON the off-cone limit
     return {"nant": nant, "events": events, "times": [t0 + 0.25 * j for j in range(n)],
             "wmin": rng.choice([None, 0.0, 0.1, 0.25, 0.5, (0.5, 0.5), (0.25, 0.75), (0.0, 0.5), (0.25, 0.0),
                                 (1 / 16, 1 / 16)]),
-            "offcone": rng.choice([None, 5, 20]), "interp": rng.choice([None, 0.1]),
+            "offcone": offcone, "interp": rng.choice([None, 0.1]),
             "trig": trig, "writer": rng.random() < 0.7,
-            "wmin_form": rng.choice(["tuple", "tuple", "list"]),          # weight_min pair as tuple or list
+            "wmin_form": rng.choice(["tuple", "tuple", "list", "tuple3"]),   # weight_min pair as tuple / list / longer
             "ants_form": rng.choice(["list", "list", "tuple", "iter"])}   # the antenna collection
+
+
+def boundary_offcone(rng, evd, nant, default):
+    """an `offcone_max` (degrees) whose radians are EXACTLY |psi - theta_c| of one (particle, path) of the event,
+    as the kernel computes them in floating point; `default` when there is no path or no float hits it"""
+    np = _np()
+    from pyrex.internal_functions import normalize
+    pairs = [(pe, e) for pe in evd["particles"] for i in range(nant) for e in (evd["table"][(pe["vid"], i)] or [])]
+    if not pairs:
+        return default
+    pe, e = rng.choice(pairs)
+    psi = np.arccos(np.vdot(normalize(pe["dir"]), np.array(e["e"])))
+    delta = np.abs(psi - np.arccos(1 / stub_index(stub_vertex(pe["vid"])[2])))
+    deg = float(np.degrees(delta))
+    cands = [deg]
+    lo = hi = deg
+    for _ in range(40):
+        lo, hi = float(np.nextafter(lo, -np.inf)), float(np.nextafter(hi, np.inf))
+        cands += [lo, hi]
+    for c in cands:
+        if np.radians(c) == delta and 0 < c:
+            return c
+    return default
 
 
 def event_def(case, k):
@@ -799,9 +835,8 @@ def run_real(setup, combo, rng, nev=2):
         particles = list(ev)
         for kk, p in enumerate(particles):
             pid = kk + 1
-            theta_c = float(np.arccos(1 / ice.index(p.vertex[2])))
-            s = "%d %s %s %s %s" % (pid, opt(p.survival_weight), opt(p.interaction_weight), opt(p._forced_weight),
-                                    frs(theta_c))
+            theta_c = np.arccos(1 / ice.index(p.vertex[2]))
+            s = "%d %s %s %s 0" % (pid, opt(p.survival_weight), opt(p.interaction_weight), opt(p._forced_weight))
             for i, a in enumerate(ants):
                 rt = tracer(p.vertex, a.position, ice_model=ice)
                 if not rt.exists:
@@ -811,13 +846,14 @@ def run_real(setup, combo, rng, nev=2):
                 s += " S %d" % len(sols)
                 for j, path in enumerate(sols):
                     pathid = 1000 * pid + 100 * i + j
-                    psi = float(np.arccos(np.vdot(p.direction, path.emitted_direction)))
+                    psi_np = np.arccos(np.vdot(p.direction, path.emitted_direction))
+                    psi = float(psi_np)
                     # every shipped Askaryan model documents a single ValueError: |angle| > 180 degrees.  A viewing
                     # angle is an arccos, so inside the cut the kernel must deliver the model's pulse - the
                     # expectation is NOT taken from calling the (possibly changed) model
                     ok = 0.0 <= psi <= float(np.pi)
                     sol_of[pathid] = (pid, i, path, p, psi)
-                    s += " %d %s %s %d" % (pathid, frs(path.tof), frs(psi), ok)
+                    s += " %d %s %s %d" % (pathid, frs(path.tof), frs(float(np.abs(psi_np - theta_c))), ok)
             parts.append(s)
         req = "ev 3 %s %s %s %s %d %d %d %d %d %s" % (grid_s(setup.times), wms, frs(offmax), ts_,
                                                       1 if has_writer else 0, seen, after, 7, len(parts),
@@ -1040,6 +1076,51 @@ def compare_real(reply, obs, setup):
     return None
 
 
+def check_kernel_rejections(run):
+    """inputs outside the model's `WeightMin` / `Gen` types: the implementation must raise, not go on"""
+    np = _np()
+    import pyrex
+    from pyrex.kernel import EventKernel
+    from pyrex.generation import ListGenerator
+    ok = True
+
+    def kernel(**kw):
+        p = pyrex.Particle("nu_e", (100, 50, -300), (0.2, 0.1, -0.5), 1e9, interaction_type="cc")
+        p.survival_weight, p.interaction_weight = 0.6, 0.7
+        ants = [pyrex.Antenna((0, 0, -100), noisy=False)]
+        return EventKernel(ListGenerator([pyrex.Event([p])], loop=kw.pop("loop", True)), ants,
+                           signal_times=np.linspace(-20e-9, 80e-9, 64, endpoint=False), **kw), ants
+    forms = [("numpy-array pair", dict(weight_min=np.array([0.5, 0.5])), (ValueError,)),
+             ("1-tuple", dict(weight_min=(0.5,)), (IndexError,)),
+             ("string", dict(weight_min="ab"), (TypeError,)),
+             ("pair of None", dict(weight_min=(None, None)), (TypeError,))]
+    for name, kw, types in forms:
+        run.case(("kernel-rejects", name))
+        try:
+            k, ants = kernel(**kw)
+            k.event()
+            got = "no exception (%d signals delivered)" % len(ants[0].signals)
+        except types:
+            run.traces += 1
+            run.count("kernel_rejects_" + name.replace(" ", "_"))
+            continue
+        except Exception as e:
+            got = type(e).__name__
+        ok = False
+        run.note_broken("correspondence: weight_min as %s is outside the model (scalar | pair of numbers); the "
+                        "implementation should raise %s, got %s" % (name, "/".join(t.__name__ for t in types), got))
+    run.case(("kernel-rejects", "exhausted generator"))
+    try:
+        k, ants = kernel(loop=False)
+        k.event()
+        k.event()
+        ok = False
+        run.note_broken("correspondence: a ListGenerator(loop=False) past its end must raise StopIteration")
+    except StopIteration:
+        run.traces += 1
+    return ok
+
+
 # =============================================================================================
 def correspondence(run):
     import logging
@@ -1075,6 +1156,9 @@ def correspondence(run):
         run.count("stub_recv_empty", imp.count(" E "))
         run.count("stub_recv_pulse", imp.count(" P "))
         run.count("stub_event_index_%d" % k)
+        run.count("stub_zero_antennas", int(c["nant"] == 0))
+        run.count("stub_empty_event", int(not evd["particles"]))
+        run.count("stub_offcone_exactly_on_limit", int(c["offcone"] not in (None, 5, 20)))
         vids = [pe["vid"] for pe in evd["particles"] if pe["dup_of"] is None]
         run.count("stub_events_with_shared_vertex", int(len(set(vids)) < len(vids)))
         run.count("stub_events_with_repeated_particle_object", int(any(pe["dup_of"] is not None for pe in evd["particles"])))
@@ -1087,6 +1171,8 @@ def correspondence(run):
                             % (k, rq[:500], view[:400], imp[:400]))
             if len(run.broken) > 5:
                 break
+    if not check_kernel_rejections(run):
+        ok = False
     # ---- the real kernel
     combos = all_combos()
     if run.thorough():
@@ -1181,9 +1267,11 @@ def stub_oracle(case):
                 if not passes(ps[pid]):
                     continue
                 for e in evd["table"][(vid_of(evd, pid), i)] or []:
-                    psi = float(np.arccos(np.vdot(ps[pid].direction, np.array(e["e"]))))
-                    theta_c = float(np.arccos(1 / stub_index(ps[pid].vertex[2])))
-                    empty = abs(psi - theta_c) > offmax or (pid, e["id"]) in refuse
+                    psi = np.arccos(np.vdot(ps[pid].direction, np.array(e["e"])))
+                    theta_c = np.arccos(1 / stub_index(ps[pid].vertex[2]))
+                    empty = bool(np.abs(psi - theta_c) > np.radians(180 if case["offcone"] is None
+                                                                    else case["offcone"])) \
+                        or (pid, e["id"]) in refuse
                     grid = grid_s([t + e["tof"] for t in case["times"]])
                     exp.append(("E " + grid) if empty else ("P %d %d %s" % (pid, e["id"], grid)))
                     ids.append(e["id"])
@@ -1196,6 +1284,8 @@ def stub_oracle(case):
                 return "event %d antenna %d: expected `%s` got `%s`" % (k, i, want[:200], segs[3 + i][:200])
         # the trigger result is the supplied function(s) evaluated on the antennas after reception
         def ev_trig(spec):
+            if spec[0] == "K":
+                return bool(spec[1])
             if spec[0] == "G":
                 return len(exp_all[spec[1]]) >= spec[2]
             return any(x.startswith("P ") for x in exp_all[spec[1]])
@@ -1293,11 +1383,9 @@ def real_oracle(setup, combo, rng):
             # stored signal is the configured model's pulse for that viewing angle (0..180 degrees)
             offmax = float(np.radians(180 if combo[3] is None else combo[3]))
             for j, (got, path, p) in enumerate(zip(obs["recv"][i], exp, owners)):
-                psi = float(np.arccos(np.vdot(p.direction, path.emitted_direction)))
-                theta_c = float(np.arccos(1 / ice.index(p.vertex[2])))
-                inside = abs(psi - theta_c) <= offmax
-                if abs(abs(psi - theta_c) - offmax) < 1e-9:
-                    continue
+                psi = np.arccos(np.vdot(p.direction, path.emitted_direction))
+                theta_c = np.arccos(1 / ice.index(p.vertex[2]))
+                inside = not (np.abs(psi - theta_c) > np.radians(180 if combo[3] is None else combo[3]))
                 if (got[0] == "P") != inside:
                     return ("event %d: antenna %d solution %d: viewing angle %.2f deg is %s the off-cone cut but the "
                             "antenna was handed %s signal" % (k, i, j, np.degrees(psi), "inside" if inside else "outside",
